@@ -639,10 +639,14 @@ Definition reverse_left (x : rnode) : rnode :=
 
 (* ================================================================ scanners (parser.go) *)
 
+(* small readers of the pattern: rightChar(i) == c with the bound test that precedes it *)
+Definition hd_is (p : list Z) (c : Z) : bool := match p with x :: _ => x =? c | [] => false end.
+Definition nth_is (i : nat) (p : list Z) (c : Z) : bool := hd_is (skipn i p) c.
+Definition longer (p : list Z) (n : nat) : bool := Nat.ltb n (length p).        (* charsRight() > n *)
+
 (* scanBlank (1557-1602): x-mode blanks and #-comments, and (?#...) comments in both modes *)
 Inductive bmode : Type := BNorm | BLine | BParen.
-Definition starts_qhash (p : list Z) : bool :=
-  match p with 63 :: 35 :: _ => true | _ => false end.
+Definition starts_qhash (p : list Z) : bool := hd_is p 63 && nth_is 1 p 35.
 Fixpoint blank (x : bool) (md : bmode) (p : list Z) : pr (list Z) :=
   match p with
   | [] => match md with BParen => PE PE_UnterminatedComment [] | _ => POk [] end
@@ -750,21 +754,17 @@ Definition prop_lookup (nm q : list Z) : pr (Z * list Z) :=
   let id := cat_name nm in
   if 0 <=? id then POk (id, q) else if id =? -1 then PE PE_UnknownSlashP q else PO.
 Definition parse_property (o : Z) (p : list Z) : pr (Z * list Z) :=
-  let braces :=
-    if (zlen p <? 3) then PE PE_IncompleteSlashP p
-    else match p with
-         | [] => PE PE_IncompleteSlashP p
-         | ch :: p1 =>
-             if negb (ch =? 123) then PE PE_MalformedSlashP p1
-             else let '(nm, q) := prop_name p1 in
-                  match q with
-                  | [] => PE PE_IncompleteSlashP []
-                  | c :: q' => if c =? 125 then prop_lookup nm q' else PE PE_IncompleteSlashP q'
-                  end
-         end in
   match p with
-  | ch :: p1 => if negb (ch =? 123) && (negb (useE o) || negb (useU o)) then prop_lookup [ch] p1 else braces
-  | [] => braces
+  | ch :: p1 =>
+      if negb (ch =? 123) && (negb (useE o) || negb (useU o)) then prop_lookup [ch] p1
+      else if negb (longer p 2) then PE PE_IncompleteSlashP p
+      else if negb (ch =? 123) then PE PE_MalformedSlashP p1
+      else let '(nm, q) := prop_name p1 in
+           match q with
+           | [] => PE PE_IncompleteSlashP []
+           | c :: q' => if c =? 125 then prop_lookup nm q' else PE PE_IncompleteSlashP q'
+           end
+  | [] => PE PE_IncompleteSlashP p
   end.
 
 (* ---- scanCharSet (1685-1929): the text of a bracket expression -> csyn (Model/CharClass.v) *)
@@ -779,132 +779,131 @@ Fixpoint posix_index_in (nm : list Z) (l : list (list Z)) (i : Z) : option Z :=
   end.
 Definition posix_index (nm : list Z) : option Z := posix_index_in nm posix_name_table 0.
 
-Definition caret (p : list Z) : bool * list Z :=
-  match p with 94 :: p' => (true, p') | _ => (false, p) end.
+(* the "^" in front of a class *)
+Definition caret (p : list Z) : bool * list Z := if hd_is p 94 then (true, tl p) else (false, p).
 
-Definition second_is_not (p : list Z) (c : Z) : bool :=
-  match p with _ :: d :: _ => negb (d =? c) | _ => false end.
+(* the recursive calls of scanCharSet's loop: scan_only, negate, cursor, chPrev, inRange, firstChar,
+   items (newest first), cc.sub *)
+Definition cs_rec : Type :=
+  bool -> bool -> list Z -> Z -> bool -> bool -> list CharClass.item -> option csyn -> pr (csyn * list Z).
 
-(* [so] = scanOnly.  State of the Go loop: chPrev, inRange, firstChar; [items] newest first; [sub] = cc.sub.
-   One unit of fuel per loop turn and per nested class. *)
+Section ClassLoop.
+Variable rec : cs_rec.
+Variable so : bool.              (* scanOnly *)
+Variable o : Z.
+Variable ng : bool.
+Variable chprev : Z.
+Variable inrange first : bool.
+Variable sub : option csyn.
+
+(* the next turn of the loop (firstChar = false) *)
+Definition cs_next (q : list Z) (cp : Z) (ir : bool) (its : list CharClass.item) (sb : option csyn) : pr (csyn * list Z) :=
+  rec so ng q cp ir false its sb.
+
+(* a nested class (1863, 1890, 1901) *)
+Definition cs_nested (so' : bool) (q : list Z) : pr (csyn * list Z) :=
+  let '(ng2, q2) := caret q in rec so' ng2 q2 0 false true [] None.
+
+(* after a subtraction (1869, 1896) *)
+Definition cs_after_sub (r : csyn * list Z) (its : list CharClass.item) : pr (csyn * list Z) :=
+  let '(sb, q3) := r in
+  if negb (match q3 with [] => true | _ => false end) && negb (hd_is q3 93) then PE PE_SubtractionMustBeLast q3
+  else cs_next q3 chprev false its (Some sb).
+
+(* 1855-1907: the character ch (translated = came from an escape) at cursor q *)
+Definition cs_generic (ch : Z) (translated : bool) (q : list Z) (items : list CharClass.item) : pr (csyn * list Z) :=
+  if inrange then
+    if so then cs_next q chprev false items sub
+    else if (ch =? 91) && negb translated && negb first then
+      pdo r <- cs_nested false q ; cs_after_sub r (IRange chprev chprev :: items)
+    else if ch <? chprev then PE PE_ReversedCharRange q
+    else cs_next q chprev false (IRange chprev ch :: items) sub
+  else if longer q 1 && hd_is q 45 && negb (nth_is 1 q 93) then cs_next (tl q) ch true items sub
+  else if longer q 0 && (ch =? 45) && negb translated && hd_is q 91 && negb first then
+    if so then
+      match cs_nested true (tl q) with
+      | POk (_, q3) => cs_next q3 chprev false items sub
+      | PE _ q3 => cs_next q3 chprev false items sub
+      | PO => PO
+      | PC w => PC w
+      | PF => PF
+      end
+    else pdo r <- cs_nested false (tl q) ; cs_after_sub r items
+  else cs_next q chprev false (if so then items else IRange ch ch :: items) sub.
+
+(* \d \s \w and their complements (1724-1765) *)
+Definition cs_shorthand (it : CharClass.item) (q : list Z) (items : list CharClass.item) : pr (csyn * list Z) :=
+  if so then cs_next q chprev inrange items sub
+  else if inrange then
+    (if negb (useE o) then PE PE_BadClassInCharRange q
+     else cs_next q chprev false (it :: IRange 45 45 :: IRange chprev chprev :: items) sub)
+  else cs_next q chprev false (it :: items) sub.
+
+(* \p \P (1767-1808); p2 = the pattern after the letter c2 *)
+Definition cs_prop (c2 : Z) (p2 : list Z) (items : list CharClass.item) : pr (csyn * list Z) :=
+  if useE o && negb (useU o) && (c2 =? 80) && inrange then PE PE_ShorthandClassInCharRange p2
+  else if useE o && negb (useU o) && (c2 =? 112) then
+    (* 1771-1792: a literal 'p' with a range logic of its own *)
+    if so then cs_next p2 chprev inrange items sub
+    else if inrange then
+      (if 112 <? chprev then PE PE_ReversedCharRange p2
+       else cs_next p2 chprev false (IRange chprev 112 :: items) sub)
+    else if longer p2 1 && hd_is p2 45 && negb (nth_is 1 p2 93) then
+      let e := nth 1 p2 0 in
+      if e <? 112 then PE PE_ReversedCharRange (skipn 2 p2)
+      else cs_next (skipn 2 p2) chprev false (IRange 112 e :: IRange 45 45 :: items) sub
+    else cs_next p2 chprev false (IRange 112 112 :: items) sub
+  else
+    pdo r <- parse_property o p2 ;
+    let '(id, q) := r in
+    if so then cs_next q chprev inrange items sub
+    else if inrange then PE PE_ShorthandClassInCharRange q
+    else cs_next q chprev false (IProp (negb (c2 =? 112)) id :: items) sub.
+
+(* [: ... :] (1825-1853); p2 = the pattern after "[:" *)
+Definition cs_posix (p1 p2 : list Z) (items : list CharClass.item) : pr (csyn * list Z) :=
+  let '(ngp, p3) := if longer p2 1 && hd_is p2 94 then (true, tl p2) else (false, p2) in
+  let '(nm, p4) := scan_word is_word_char p3 in
+  pdo items' <- (if negb so && useRE2 o then
+                   match posix_index nm with
+                   | Some k => POk (IPosix ngp k :: items)
+                   | None => PE PE_InvalidCharRange p4
+                   end
+                 else POk items) ;
+  if longer p4 1 && hd_is p4 58 && nth_is 1 p4 93 then
+    (if useRE2 o then cs_next (skipn 2 p4) chprev inrange items' sub else cs_generic 91 false (skipn 2 p4) items')
+  else cs_generic 91 false p1 items'.
+
+(* one turn of the loop (1707-1908) *)
+Definition cs_body (p : list Z) (items : list CharClass.item) : pr (csyn * list Z) :=
+  match p with
+  | [] => PE PE_UnterminatedBracket []
+  | ch :: p1 =>
+      if ch =? 93 then
+        (if negb first || useE o then POk (CSyn ng (rev items) sub, p1) else cs_generic 93 false p1 items)
+      else if ch =? 92 then
+        match p1 with
+        | [] => cs_generic 92 false p1 items
+        | c2 :: p2 =>
+            if (c2 =? 68) || (c2 =? 100) then cs_shorthand (IDigit (c2 =? 68)) p2 items
+            else if (c2 =? 83) || (c2 =? 115) then cs_shorthand (ISpace (c2 =? 83)) p2 items
+            else if (c2 =? 87) || (c2 =? 119) then cs_shorthand (IWord (c2 =? 87)) p2 items
+            else if (c2 =? 112) || (c2 =? 80) then cs_prop c2 p2 items
+            else if c2 =? 45 then cs_next p2 chprev inrange (if so then items else IRange 45 45 :: items) sub
+            else pdo r <- char_escape o p1 ; let '(c, q) := r in cs_generic c true q items
+        end
+      else if (ch =? 91) && hd_is p1 58 && negb inrange then cs_posix p1 (tl p1) items
+      else cs_generic ch false p1 items
+  end.
+End ClassLoop.
+
+(* One unit of fuel per loop turn and per nested class. *)
 Fixpoint cs_loop (fuel : nat) (so : bool) (o : Z) (ng : bool) (p : list Z) (chprev : Z) (inrange first : bool)
          (items : list CharClass.item) (sub : option csyn) : pr (csyn * list Z) :=
   match fuel with
   | O => PF
-  | S f =>
-    match p with
-    | [] => PE PE_UnterminatedBracket []
-    | ch :: p1 =>
-      let next q cp ir its sb := cs_loop f so o ng q cp ir false its sb in
-      (* 1855-1907: the character ch (translated = came from an escape) at cursor q *)
-      let generic (ch : Z) (translated : bool) (q : list Z) (items : list CharClass.item) : pr (csyn * list Z) :=
-        if inrange then
-          if so then next q chprev false items sub
-          else if (ch =? 91) && negb translated && negb first then
-            let '(ng2, q2) := caret q in
-            pdo r <- cs_loop f false o ng2 q2 0 false true [] None ;
-            let '(sb, q3) := r in
-            match q3 with
-            | c :: _ => if negb (c =? 93) then PE PE_SubtractionMustBeLast q3
-                        else next q3 chprev false (IRange chprev chprev :: items) (Some sb)
-            | [] => next q3 chprev false (IRange chprev chprev :: items) (Some sb)
-            end
-          else if ch <? chprev then PE PE_ReversedCharRange q
-          else next q chprev false (IRange chprev ch :: items) sub
-        else
-          match q with
-          | 45 :: q1 =>
-              if second_is_not q 93 then next q1 ch true items sub
-              else next q chprev false (if so then items else IRange ch ch :: items) sub
-          | c0 :: q1 =>
-              if (ch =? 45) && negb translated && (c0 =? 91) && negb first then
-                let '(ng2, q2) := caret q1 in
-                if so then
-                  match cs_loop f true o ng2 q2 0 false true [] None with
-                  | POk (_, q3) => next q3 chprev false items sub
-                  | PE _ q3 => next q3 chprev false items sub
-                  | PO => PO
-                  | PC w => PC w
-                  | PF => PF
-                  end
-                else
-                  pdo r <- cs_loop f false o ng2 q2 0 false true [] None ;
-                  let '(sb, q3) := r in
-                  match q3 with
-                  | c :: _ => if negb (c =? 93) then PE PE_SubtractionMustBeLast q3
-                              else next q3 chprev false items (Some sb)
-                  | [] => next q3 chprev false items (Some sb)
-                  end
-              else next q chprev false (if so then items else IRange ch ch :: items) sub
-          | [] => next q chprev false (if so then items else IRange ch ch :: items) sub
-          end in
-      (* \d \s \w and their complements (1724-1765) *)
-      let shorthand (it : CharClass.item) (q : list Z) : pr (csyn * list Z) :=
-        if so then next q chprev inrange items sub
-        else if inrange then
-          (if negb (useE o) then PE PE_BadClassInCharRange q
-           else next q chprev false (it :: IRange 45 45 :: IRange chprev chprev :: items) sub)
-        else next q chprev false (it :: items) sub in
-      if ch =? 93 then
-        (if negb first || useE o then POk (CSyn ng (rev items) sub, p1) else generic 93 false p1 items)
-      else if ch =? 92 then
-        match p1 with
-        | [] => generic 92 false p1 items
-        | c2 :: p2 =>
-            if (c2 =? 68) || (c2 =? 100) then shorthand (IDigit (c2 =? 68)) p2
-            else if (c2 =? 83) || (c2 =? 115) then shorthand (ISpace (c2 =? 83)) p2
-            else if (c2 =? 87) || (c2 =? 119) then shorthand (IWord (c2 =? 87)) p2
-            else if (c2 =? 112) || (c2 =? 80) then
-              if useE o && negb (useU o) && (c2 =? 80) && inrange then PE PE_ShorthandClassInCharRange p2
-              else if useE o && negb (useU o) && (c2 =? 112) then
-                (* 1771-1792: a literal 'p' with a range logic of its own *)
-                if so then next p2 chprev inrange items sub
-                else if inrange then
-                  (if 112 <? chprev then PE PE_ReversedCharRange p2
-                   else next p2 chprev false (IRange chprev 112 :: items) sub)
-                else match p2 with
-                     | 45 :: e :: p3 =>
-                         if negb (e =? 93) then
-                           (if e <? 112 then PE PE_ReversedCharRange p3
-                            else next p3 chprev false (IRange 112 e :: IRange 45 45 :: items) sub)
-                         else next p2 chprev false (IRange 112 112 :: items) sub
-                     | _ => next p2 chprev false (IRange 112 112 :: items) sub
-                     end
-              else
-                pdo r <- parse_property o p2 ;
-                let '(id, q) := r in
-                if so then next q chprev inrange items sub
-                else if inrange then PE PE_ShorthandClassInCharRange q
-                else next q chprev false (IProp (negb (c2 =? 112)) id :: items) sub
-            else if c2 =? 45 then next p2 chprev inrange (if so then items else IRange 45 45 :: items) sub
-            else
-              pdo r <- char_escape o p1 ;
-              let '(c, q) := r in generic c true q items
-        end
-      else if ch =? 91 then
-        match p1 with
-        | 58 :: p2 =>
-            if negb inrange then
-              let '(ngp, p3) := match p2 with
-                                | 94 :: ((_ :: _) as r) => (true, r)
-                                | _ => (false, p2)
-                                end in
-              let '(nm, p4) := scan_word is_word_char p3 in
-              pdo items' <- (if negb so && useRE2 o then
-                               match posix_index nm with
-                               | Some k => POk (IPosix ngp k :: items)
-                               | None => PE PE_InvalidCharRange p4
-                               end
-                             else POk items) ;
-              match p4 with
-              | 58 :: 93 :: p5 => if useRE2 o then next p5 chprev inrange items' sub else generic 91 false p5 items'
-              | _ => generic 91 false p1 items'
-              end
-            else generic 91 false p1 items
-        | _ => generic 91 false p1 items
-        end
-      else generic ch false p1 items
-    end
+  | S f => cs_body (fun so' ng' q cp ir fi its sb => cs_loop f so' o ng' q cp ir fi its sb)
+                   so o ng chprev inrange first sub p items
   end.
 
 Definition cs_scan (fuel : nat) (so : bool) (o : Z) (p : list Z) : pr (csyn * list Z) :=
@@ -966,27 +965,20 @@ Definition name_or_num (so : bool) (tb : captab) (o : Z) (k : bool) (close : Z) 
       if is_digit ch then
         pdo r <- decimal cur ;
         let '(capnum, r1) := r in
-        match r1 with
-        | c :: r2 =>
-            if c =? close
-            then (if ct_slot tb capnum then POk (BNode (mk_node_mn T_Ref o capnum 0), r2) else PE E_UndefinedBackRef r2)
-            else char_code so o p0
-        | [] => char_code so o p0
-        end
+        if hd_is r1 close
+        then (if ct_slot tb capnum then POk (BNode (mk_node_mn T_Ref o capnum 0), tl r1) else PE E_UndefinedBackRef (tl r1))
+        else char_code so o p0
       else if useE o then PO                                             (* scanECMACapname *)
       else
         let '(nm, r1) := scan_word is_word_char cur in
-        match nm, r1 with
-        | _ :: _, c :: r2 =>
-            if c =? close then
-              (if so then POk (BNil, r2)
-               else match ct_name tb nm with
-                    | Some g => POk (BNode (mk_node_mn T_Ref o g 0), r2)
-                    | None => PE E_UndefinedNameRef r2
-                    end)
-            else if k then PE E_MalformedNameRef r2 else char_code so o p0
-        | _, _ => if k then PE E_MalformedNameRef r1 else char_code so o p0
-        end
+        if negb (match nm with [] => true | _ => false end) && hd_is r1 close then
+          (if so then POk (BNil, tl r1)
+           else match ct_name tb nm with
+                | Some g => POk (BNode (mk_node_mn T_Ref o g 0), tl r1)
+                | None => PE E_UndefinedNameRef (tl r1)
+                end)
+        else if k then PE E_MalformedNameRef (if negb (match nm with [] => true | _ => false end) then tl r1 else r1)
+        else char_code so o p0
   end.
 
 Definition basic_backslash (so : bool) (tb : captab) (o : Z) (p : list Z) : pr (bres * list Z) :=
@@ -1004,7 +996,7 @@ Definition basic_backslash (so : bool) (tb : captab) (o : Z) (p : list Z) : pr (
                  end
         | [] => PE E_MalformedNameRef p
         end
-      else if negb (useE o) && ((ch =? 60) || (ch =? 39)) && (match p1 with [] => false | _ => true end)
+      else if negb (useE o) && ((ch =? 60) || (ch =? 39)) && longer p 1
       then name_or_num so tb o false (if ch =? 39 then 39 else 62) p p1
       else if (49 <=? ch) && (ch <=? 57) then
         pdo r <- decimal p ;
@@ -1079,101 +1071,100 @@ Definition ignore_err0 (r : pr (list Z)) : pr (list Z) :=
   | _ => r
   end.
 
+(* 420-448: (?<name  (?'name  (?<number ; p3 = the pattern after "(?<" / "(?'", non-empty *)
+Definition prescan_named (mco : bool) (st1 : cst) (p3 : list Z) : pr (cst * list Z) :=
+  let o := cs_o st1 in
+  match p3 with
+  | [] => PC 31
+  | ch2 :: _ =>
+      if useE o then
+        (if (ch2 =? 61) || (ch2 =? 33) || (ch2 =? 48) then POk (set_cs_ign st1 false, p3)
+         else PO)                                                                        (* ECMAScript names *)
+      else if negb (ch2 =? 48) && is_word_char ch2 then
+        if (49 <=? ch2) && (ch2 <=? 57) then
+          pdo r <- decimal p3 ;
+          let '(dec, q) := r in
+          if mco then
+            pdo c' <- note_name_pr mco o (itoa dec) (cs_c st1) ;
+            POk (set_cs_ign (set_cs_c st1 c') false, q)
+          else POk (set_cs_ign (set_cs_c st1 (note_slot dec (cs_c st1))) false, q)
+        else
+          let '(nm, q) := scan_word is_word_char p3 in
+          pdo c' <- note_name_pr mco o nm (cs_c st1) ;
+          POk (set_cs_ign (set_cs_c st1 c') false, q)
+      else POk (set_cs_ign st1 false, p3)
+  end.
+
+(* 449-461: (?P<name ; p3 = the pattern after "(?P<", non-empty *)
+Definition prescan_pyname (mco : bool) (st1 : cst) (p3 : list Z) : pr (cst * list Z) :=
+  let o := cs_o st1 in
+  match p3 with
+  | [] => PC 32
+  | ch2 :: _ =>
+      if is_word_char ch2 then
+        if useE o then PO
+        else
+          let '(nm, q) := scan_word is_word_char p3 in
+          pdo c' <- note_name_pr mco o nm (cs_c st1) ;
+          POk (set_cs_ign (set_cs_c st1 c') false, q)
+      else POk (set_cs_ign st1 false, p3)
+  end.
+
+(* 410-491: "(" ; p1 = the pattern after it *)
+Definition prescan_open (mco : bool) (st : cst) (p p1 : list Z) : pr (cst * list Z) :=
+  let o := cs_o st in
+  if starts_qhash p1 then
+    pdo q <- ignore_err0 (scan_blank_full o p) ; POk (set_cs_ign st false, q)
+  else
+    let st1 := mkCS (cs_c st) o (o :: cs_os st) (cs_ign st) in                           (* pushOptions *)
+    if hd_is p1 63 then
+      let p2 := tl p1 in
+      if longer p2 1 && (hd_is p2 60 || hd_is p2 39) then prescan_named mco st1 (tl p2)
+      else if useRE2 o && longer p2 2 && hd_is p2 80 && nth_is 1 p2 60 then prescan_pyname mco st1 (skipn 2 p2)
+      else
+        (* 463-483: (?imnsx-imnsx) / (?imnsx-imnsx: / (?( *)
+        let '(o2, q) := scan_options_text o p2 in
+        let st2 := mkCS (cs_c st1) o2 (cs_os st1) (cs_ign st1) in
+        if hd_is q 41 then
+          match cs_os st2 with
+          | [] => PC 33                                                                  (* popKeepOptions *)
+          | _ :: r => POk (mkCS (cs_c st2) o2 r false, tl q)
+          end
+        else if hd_is q 40 then POk (set_cs_ign st2 true, q)                             (* `continue` *)
+        else POk (set_cs_ign st2 false, q)
+    else if negb (useN o) && negb (cs_ign st1)
+    then POk (set_cs_ign (set_cs_c st1 (note_auto (cs_c st1))) false, p1)
+    else POk (set_cs_ign st1 false, p1).
+
+(* one turn of the loop 387-494; p = ch :: p1 *)
+Definition prescan_step (mco : bool) (st : cst) (ch : Z) (p1 : list Z) : pr (cst * list Z) :=
+  let o := cs_o st in
+  let p := ch :: p1 in
+  if ch =? 92 then
+    match p1 with
+    | [] => POk (st, p1)
+    | _ => pdo q <- ignore_err (scan_backslash_full true (captab_pre (cs_c st)) o p1) ; POk (st, q)
+    end
+  else if ch =? 35 then
+    (if useX o then pdo q <- ignore_err0 (scan_blank_full o p) ; POk (st, q) else POk (st, p1))
+  else if ch =? 91 then
+    pdo q <- ignore_err (cs_scan (S (length p1)) true o p1) ; POk (st, q)
+  else if ch =? 41 then
+    match cs_os st with
+    | [] => POk (st, p1)
+    | o' :: r => POk (mkCS (cs_c st) o' r (cs_ign st), p1)
+    end
+  else if ch =? 40 then prescan_open mco st p p1
+  else POk (st, p1).
+
 Fixpoint prescan_loop (fuel : nat) (mco : bool) (st : cst) (p : list Z) : pr cst :=
   match fuel with
   | O => PF
   | S f =>
-    match p with
-    | [] => POk st
-    | ch :: p1 =>
-      let o := cs_o st in
-      if ch =? 92 then
-        match p1 with
-        | [] => POk st
-        | _ => pdo q <- ignore_err (scan_backslash_full true (captab_pre (cs_c st)) o p1) ; prescan_loop f mco st q
-        end
-      else if ch =? 35 then
-        (if useX o then pdo q <- ignore_err0 (scan_blank_full o p) ; prescan_loop f mco st q
-         else prescan_loop f mco st p1)
-      else if ch =? 91 then
-        pdo q <- ignore_err (cs_scan (S (length p1)) true o p1) ; prescan_loop f mco st q
-      else if ch =? 41 then
-        match cs_os st with
-        | [] => prescan_loop f mco st p1
-        | o' :: r => prescan_loop f mco (mkCS (cs_c st) o' r (cs_ign st)) p1
-        end
-      else if ch =? 40 then
-        if starts_qhash p1 then
-          pdo q <- ignore_err0 (scan_blank_full o p) ; prescan_loop f mco (set_cs_ign st false) q
-        else
-          let st1 := mkCS (cs_c st) o (o :: cs_os st) (cs_ign st) in                     (* pushOptions *)
-          match p1 with
-          | 63 :: p2 =>
-              let named := match p2 with
-                           | c :: _ :: _ => (c =? 60) || (c =? 39)
-                           | _ => false
-                           end in
-              if named then
-                (* 420-448: (?<name  (?'name  (?<number *)
-                match p2 with
-                | _ :: ((ch2 :: _) as p3) =>
-                    if useE o then
-                      (if (ch2 =? 61) || (ch2 =? 33) || (ch2 =? 48)
-                       then prescan_loop f mco (set_cs_ign st1 false) p3
-                       else PO)                                                          (* ECMAScript names *)
-                    else if negb (ch2 =? 48) && is_word_char ch2 then
-                      if (49 <=? ch2) && (ch2 <=? 57) then
-                        pdo r <- decimal p3 ;
-                        let '(dec, q) := r in
-                        if mco then
-                          pdo c' <- note_name_pr mco o (itoa dec) (cs_c st1) ;
-                          prescan_loop f mco (set_cs_ign (set_cs_c st1 c') false) q
-                        else prescan_loop f mco (set_cs_ign (set_cs_c st1 (note_slot dec (cs_c st1))) false) q
-                      else
-                        let '(nm, q) := scan_word is_word_char p3 in
-                        pdo c' <- note_name_pr mco o nm (cs_c st1) ;
-                        prescan_loop f mco (set_cs_ign (set_cs_c st1 c') false) q
-                    else prescan_loop f mco (set_cs_ign st1 false) p3
-                | _ => PC 31
-                end
-              else
-                let py := useRE2 o && (match p2 with
-                                       | 80 :: 60 :: _ :: _ => true
-                                       | _ => false
-                                       end) in
-                if py then
-                  (* 449-461: (?P<name *)
-                  match p2 with
-                  | _ :: _ :: ((ch2 :: _) as p3) =>
-                      if is_word_char ch2 then
-                        if useE o then PO
-                        else
-                          let '(nm, q) := scan_word is_word_char p3 in
-                          pdo c' <- note_name_pr mco o nm (cs_c st1) ;
-                          prescan_loop f mco (set_cs_ign (set_cs_c st1 c') false) q
-                      else prescan_loop f mco (set_cs_ign st1 false) p3
-                  | _ => PC 32
-                  end
-                else
-                  (* 463-483: (?imnsx-imnsx) / (?imnsx-imnsx: / (?( *)
-                  let '(o2, q) := scan_options_text o p2 in
-                  let st2 := mkCS (cs_c st1) o2 (cs_os st1) (cs_ign st1) in
-                  match q with
-                  | 41 :: q1 =>
-                      match cs_os st2 with
-                      | [] => PC 33                                                      (* popKeepOptions *)
-                      | _ :: r => prescan_loop f mco (mkCS (cs_c st2) o2 r false) q1
-                      end
-                  | 40 :: _ => prescan_loop f mco (set_cs_ign st2 true) q                (* `continue` *)
-                  | _ => prescan_loop f mco (set_cs_ign st2 false) q
-                  end
-          | _ =>
-              if negb (useN o) && negb (cs_ign st1)
-              then prescan_loop f mco (set_cs_ign (set_cs_c st1 (note_auto (cs_c st1))) false) p1
-              else prescan_loop f mco (set_cs_ign st1 false) p1
-          end
-      else prescan_loop f mco st p1
-    end
+      match p with
+      | [] => POk st
+      | ch :: p1 => pdo r <- prescan_step mco st ch p1 ; let '(st', q) := r in prescan_loop f mco st' q
+      end
   end.
 
 (* countCaptures + assignNameSlots: the finished tables *)
@@ -1190,8 +1181,9 @@ Definition captab_main (tb : GroupMap.ptree) : captab :=
 (* the parser fields scanGroupOpen changes: options, ignoreNextParen, autocap *)
 Record gvars : Type := mkGV { gv_o : Z; gv_ign : bool; gv_autocap : Z }.
 
-Definition head_is (p : list Z) (c : Z) : bool := match p with x :: _ => x =? c | [] => false end.
-Definition head_is_not (p : list Z) (c : Z) : bool := match p with x :: _ => negb (x =? c) | [] => false end.
+Definition is_nil (p : list Z) : bool := match p with [] => true | _ => false end.
+(* charsRight() > 0 && rightChar(0) != c *)
+Definition hd_is_not (p : list Z) (c : Z) : bool := negb (is_nil p) && negb (hd_is p c).
 
 (* 1040-1140: the name part of (?<name> (?'name' (?<name-name> ...; cur = the pattern after '<' or '\'' *)
 Definition group_name (tb : captab) (mco : bool) (v : gvars) (close : Z) (cur : list Z) : pr (option rnode * gvars * list Z) :=
@@ -1206,162 +1198,136 @@ Definition group_name (tb : captab) (mco : bool) (v : gvars) (close : Z) (cur : 
              pdo r <- decimal cur ;
              let '(n, q) := r in
              let capnum := if ct_slot tb n then n else -1 in
-             if (match q with c :: _ => negb (c =? close) && negb (c =? 45) | [] => false end)
-             then PE PE_InvalidGroupName q
+             if hd_is_not q close && hd_is_not q 45 then PE PE_InvalidGroupName q
              else if capnum =? 0 then PE PE_CapNumNotZero q
              else POk (capnum, false, q)
            else if is_word_char ch then
              let '(nm, q) := scan_word is_word_char cur in
              let capnum := match ct_name tb nm with Some g => g | None => -1 end in
-             if (match q with c :: _ => negb (c =? close) && negb (c =? 45) | [] => false end)
-             then PE PE_InvalidGroupName q
+             if hd_is_not q close && hd_is_not q 45 then PE PE_InvalidGroupName q
              else POk (capnum, false, q)
            else if ch =? 45 then POk (-1, true, cur)
            else PE PE_InvalidGroupName cur) ;
         let '(capnum, proceed, q) := r in
         pdo r2 <-
-          (if (negb (capnum =? -1) || proceed) && head_is q 45 then
-             match q with
-             | _ :: q1 =>
-                 match q1 with
-                 | [] => PE PE_InvalidGroupName q1
-                 | c3 :: _ =>
-                     if is_digit c3 then
-                       pdo r <- decimal q1 ;
-                       let '(u, q2) := r in
-                       if negb (ct_slot tb u) then PE E_UndefinedBackRef q2
-                       else if head_is_not q2 close then PE PE_InvalidGroupName q2
-                       else POk (u, q2)
-                     else if is_word_char c3 then
-                       let '(nm, q2) := scan_word is_word_char q1 in
-                       match ct_name tb nm with
-                       | None => PE E_UndefinedNameRef q2
-                       | Some u => if head_is_not q2 close then PE PE_InvalidGroupName q2 else POk (u, q2)
-                       end
-                     else PE PE_InvalidGroupName q1
-                 end
-             | [] => PC 35
+          (if (negb (capnum =? -1) || proceed) && hd_is q 45 then
+             let q1 := tl q in
+             match q1 with
+             | [] => PE PE_InvalidGroupName q1
+             | c3 :: _ =>
+                 if is_digit c3 then
+                   pdo r <- decimal q1 ;
+                   let '(u, q2) := r in
+                   if negb (ct_slot tb u) then PE E_UndefinedBackRef q2
+                   else if hd_is_not q2 close then PE PE_InvalidGroupName q2
+                   else POk (u, q2)
+                 else if is_word_char c3 then
+                   let '(nm, q2) := scan_word is_word_char q1 in
+                   match ct_name tb nm with
+                   | None => PE E_UndefinedNameRef q2
+                   | Some u => if hd_is_not q2 close then PE PE_InvalidGroupName q2 else POk (u, q2)
+                   end
+                 else PE PE_InvalidGroupName q1
              end
            else POk (-1, q)) ;
         let '(uncapnum, q3) := r2 in
-        match q3 with
-        | c :: q4 =>
-            if (negb (capnum =? -1) || negb (uncapnum =? -1)) && (c =? close)
-            then POk (Some (mk_node_mn T_Capture o capnum uncapnum),
-                      mkGV o (gv_ign v) (consume_slot mco capnum (gv_autocap v)), q4)
-            else PE PE_UnrecognizedGrouping q4
-        | [] => PE PE_UnrecognizedGrouping q3
-        end
+        if (negb (capnum =? -1) || negb (uncapnum =? -1)) && hd_is q3 close
+        then POk (Some (mk_node_mn T_Capture o capnum uncapnum),
+                  mkGV o (gv_ign v) (consume_slot mco capnum (gv_autocap v)), tl q3)
+        else PE PE_UnrecognizedGrouping (tl q3)
   end.
+
+(* 1143-1197: alternation construct (?(...) | ); p1 = the pattern at the second "(" *)
+Definition group_cond (tb : captab) (v : gvars) (p1 : list Z) : pr (option rnode * gvars * list Z) :=
+  let o := gv_o v in
+  let p2 := tl p1 in
+  pdo r <-
+    (match p2 with
+     | [] => POk None
+     | c :: _ =>
+         if is_digit c then
+           pdo r <- decimal p2 ;
+           let '(n, q) := r in
+           if hd_is q 41 then (if ct_slot tb n then POk (Some (n, tl q)) else PE PE_UndefinedReference (tl q))
+           else PE PE_MalformedReference (tl q)
+         else if is_word_char c then
+           if useE o then PO
+           else
+             let '(nm, q) := scan_word is_word_char p2 in
+             match ct_name tb nm with
+             | Some g => if hd_is q 41 then POk (Some (g, tl q)) else POk None
+             | None => POk None
+             end
+         else POk None
+     end) ;
+  match r with
+  | Some (g, q1) => POk (Some (mk_node_mn T_BackRefCond o g 0), v, q1)
+  | None =>
+      (* the condition is an expression: back to its "(" *)
+      if longer p1 2 && nth_is 1 p1 63 then
+        if nth_is 2 p1 35 then PE PE_AlternationCantHaveComment p1
+        else if nth_is 2 p1 39 then PE PE_AlternationCantCapture p1
+        else if longer p1 3 && nth_is 2 p1 60 && negb (nth_is 3 p1 33) && negb (nth_is 3 p1 61)
+        then PE PE_AlternationCantCapture p1
+        else POk (Some (mk_node T_ExprCond o), mkGV o true (gv_autocap v), p1)
+      else POk (Some (mk_node T_ExprCond o), mkGV o true (gv_autocap v), p1)
+  end.
+
+(* 1199-1242: (?P<name> ; p2 = the pattern after "(?P" *)
+Definition group_pyname (tb : captab) (mco : bool) (v : gvars) (p2 : list Z) : pr (option rnode * gvars * list Z) :=
+  let o := gv_o v in
+  if negb (longer p2 2) then PE PE_UnrecognizedGrouping p2
+  else if negb (hd_is p2 60) then PE PE_UnrecognizedGrouping (tl p2)
+  else if is_word_char (nth 1 p2 0) then
+    if useE o then PO
+    else
+      let '(nm, q) := scan_word is_word_char (tl p2) in
+      let capnum := match ct_name tb nm with Some g => g | None => -1 end in
+      if hd_is_not q 62 then PE PE_InvalidGroupName q
+      else if negb (capnum =? -1) && hd_is q 62
+      then POk (Some (mk_node_mn T_Capture o capnum (-1)), mkGV o false (consume_slot mco capnum (gv_autocap v)), tl q)
+      else PE PE_UnrecognizedGrouping (tl q)
+  else PE PE_InvalidGroupName (tl p2).
 
 (* [gt] = p.group.T; p = the pattern after the "(" *)
 Definition group_open (tb : captab) (mco : bool) (gt : Z) (v : gvars) (p : list Z) : pr (option rnode * gvars * list Z) :=
   let o := gv_o v in
-  let plain := match p with
-               | [] => true
-               | c :: r => if negb (c =? 63) then true else head_is r 41
-               end in
-  if plain then
+  if is_nil p || negb (hd_is p 63) || nth_is 1 p 41 then
     (if useN o || gv_ign v then POk (Some (mk_node T_Group o), mkGV o false (gv_autocap v), p)
      else POk (Some (mk_node_mn T_Capture o (gv_autocap v) (-1)), mkGV o (gv_ign v) (gv_autocap v + 1), p))
   else
-    match p with
-    | _ :: p1 =>
-      let v := mkGV o false (gv_autocap v) in                                            (* 994 *)
-      match p1 with
-      | [] => PE PE_UnrecognizedGrouping p1
-      | ch :: p2 =>
-          if ch =? 58 then POk (Some (mk_node T_Group o), v, p2)
-          else if ch =? 61 then let o' := clear_rtl o in POk (Some (mk_node T_PosLook o'), mkGV o' false (gv_autocap v), p2)
-          else if ch =? 33 then let o' := clear_rtl o in POk (Some (mk_node T_NegLook o'), mkGV o' false (gv_autocap v), p2)
-          else if ch =? 62 then POk (Some (mk_node T_Atomic o), v, p2)
-          else if (ch =? 39) || (ch =? 60) then
-            let close := if ch =? 39 then 39 else 62 in
-            match p2 with
-            | [] => PE PE_UnrecognizedGrouping p2
-            | c2 :: p3 =>
-                if c2 =? 61 then
-                  (if close =? 39 then PE PE_UnrecognizedGrouping p3
-                   else let o' := set_rtl o in POk (Some (mk_node T_PosLook o'), mkGV o' false (gv_autocap v), p3))
-                else if c2 =? 33 then
-                  (if close =? 39 then PE PE_UnrecognizedGrouping p3
-                   else let o' := set_rtl o in POk (Some (mk_node T_NegLook o'), mkGV o' false (gv_autocap v), p3))
-                else group_name tb mco v close p2
-            end
-          else if ch =? 40 then
-            (* 1143-1197: alternation construct (?(...) | ) *)
-            pdo r <-
-              (match p2 with
-               | [] => POk None
-               | c :: _ =>
-                   if is_digit c then
-                     pdo r <- decimal p2 ;
-                     let '(n, q) := r in
-                     match q with
-                     | 41 :: q1 => if ct_slot tb n then POk (Some (n, q1)) else PE PE_UndefinedReference q1
-                     | _ :: q1 => PE PE_MalformedReference q1
-                     | [] => PE PE_MalformedReference q
-                     end
-                   else if is_word_char c then
-                     if useE o then PO
-                     else
-                       let '(nm, q) := scan_word is_word_char p2 in
-                       match ct_name tb nm, q with
-                       | Some g, 41 :: q1 => POk (Some (g, q1))
-                       | _, _ => POk None
-                       end
-                   else POk None
-               end) ;
-            match r with
-            | Some (g, q1) => POk (Some (mk_node_mn T_BackRefCond o g 0), v, q1)
-            | None =>
-                (* the condition is an expression: back to its "(" *)
-                match p1 with
-                | _ :: 63 :: r2 :: rest =>
-                    if r2 =? 35 then PE PE_AlternationCantHaveComment p1
-                    else if r2 =? 39 then PE PE_AlternationCantCapture p1
-                    else if (r2 =? 60) && (match rest with c3 :: _ => negb (c3 =? 33) && negb (c3 =? 61) | [] => false end)
-                    then PE PE_AlternationCantCapture p1
-                    else POk (Some (mk_node T_ExprCond o), mkGV o true (gv_autocap v), p1)
-                | _ => POk (Some (mk_node T_ExprCond o), mkGV o true (gv_autocap v), p1)
-                end
-            end
-          else
-            let default_case :=
-              (* 1247-1265 *)
-              let '(o2, q) := if gt =? T_ExprCond then (o, p1) else scan_options_text o p1 in
-              match q with
-              | [] => PE PE_UnrecognizedGrouping q
-              | c :: q1 =>
-                  if c =? 41 then POk (None, mkGV o2 false (gv_autocap v), q1)
-                  else if c =? 58 then POk (Some (mk_node T_Group o2), mkGV o2 false (gv_autocap v), q1)
-                  else PE PE_UnrecognizedGrouping q1
-              end in
-            if (ch =? 80) && useRE2 o then
-              (* 1199-1242: (?P<name> *)
-              match p2 with
-              | c1 :: c2 :: _ :: _ =>
-                  if negb (c1 =? 60) then PE PE_UnrecognizedGrouping p2
-                  else if is_word_char c2 then
-                    if useE o then PO
-                    else
-                      let '(nm, q) := scan_word is_word_char (tl p2) in
-                      let capnum := match ct_name tb nm with Some g => g | None => -1 end in
-                      if head_is_not q 62 then PE PE_InvalidGroupName q
-                      else match q with
-                           | c :: q1 =>
-                               if negb (capnum =? -1) && (c =? 62)
-                               then POk (Some (mk_node_mn T_Capture o capnum (-1)),
-                                         mkGV o false (consume_slot mco capnum (gv_autocap v)), q1)
-                               else PE PE_UnrecognizedGrouping q1
-                           | [] => PE PE_UnrecognizedGrouping q
-                           end
-                  else PE PE_InvalidGroupName p2
-              | _ => PE PE_UnrecognizedGrouping p2
-              end
-            else default_case
-      end
-    | [] => PC 36
+    let p1 := tl p in
+    let v := mkGV o false (gv_autocap v) in                                              (* 994 *)
+    match p1 with
+    | [] => PE PE_UnrecognizedGrouping p1
+    | ch :: p2 =>
+        if ch =? 58 then POk (Some (mk_node T_Group o), v, p2)
+        else if ch =? 61 then let o' := clear_rtl o in POk (Some (mk_node T_PosLook o'), mkGV o' false (gv_autocap v), p2)
+        else if ch =? 33 then let o' := clear_rtl o in POk (Some (mk_node T_NegLook o'), mkGV o' false (gv_autocap v), p2)
+        else if ch =? 62 then POk (Some (mk_node T_Atomic o), v, p2)
+        else if (ch =? 39) || (ch =? 60) then
+          let close := if ch =? 39 then 39 else 62 in
+          match p2 with
+          | [] => PE PE_UnrecognizedGrouping p2
+          | c2 :: p3 =>
+              if (c2 =? 61) || (c2 =? 33) then
+                (if close =? 39 then PE PE_UnrecognizedGrouping p3
+                 else let o' := set_rtl o in
+                      POk (Some (mk_node (if c2 =? 61 then T_PosLook else T_NegLook) o'), mkGV o' false (gv_autocap v), p3))
+              else group_name tb mco v close p2
+          end
+        else if ch =? 40 then group_cond tb v p1
+        else if (ch =? 80) && useRE2 o then group_pyname tb mco v p2
+        else
+          (* 1247-1265 *)
+          let '(o2, q) := if gt =? T_ExprCond then (o, p1) else scan_options_text o p1 in
+          match q with
+          | [] => PE PE_UnrecognizedGrouping q
+          | c :: q1 =>
+              if c =? 41 then POk (None, mkGV o2 false (gv_autocap v), q1)
+              else if c =? 58 then POk (Some (mk_node T_Group o2), mkGV o2 false (gv_autocap v), q1)
+              else PE PE_UnrecognizedGrouping q1
+          end
     end.
 
 (* scanPythonNamedBackref (941-966); p = the pattern after "(?P=" *)
@@ -1373,14 +1339,12 @@ Definition python_backref (tb : captab) (o : Z) (p : list Z) : pr (rnode * list 
       else if negb (is_word_char ch) then PE PE_InvalidGroupName p
       else
         let '(nm, q) := scan_word is_word_char p in
-        match nm, q with
-        | _ :: _, 41 :: q1 =>
-            match ct_name tb nm with
-            | Some g => POk (mk_node_mn T_Ref o g 0, q1)
-            | None => PE E_UndefinedNameRef q1
-            end
-        | _, _ => PE E_MalformedNameRef q
-        end
+        if negb (is_nil nm) && hd_is q 41 then
+          match ct_name tb nm with
+          | Some g => POk (mk_node_mn T_Ref o g 0, tl q)
+          | None => PE E_UndefinedNameRef (tl q)
+          end
+        else PE E_MalformedNameRef q
   end.
 
 (* ================================================================ scanRegex (513-786) *)
@@ -1483,8 +1447,21 @@ Definition pop_options (st : mst) : pr mst :=
   | o :: r => POk (mkMS (ms_stack st) (ms_group st) (ms_alt st) (ms_concat st) (ms_unit st) o r (ms_ign st) (ms_autocap st))
   end.
 
+(* the counts of a "{" quantifier (720-746); p1 = the pattern after "{".  None = not a quantifier after all *)
+Definition brace_counts (p1 : list Z) : pr (option (Z * Z * list Z)) :=
+  pdo r <- decimal p1 ;
+  let '(mn, q) := r in
+  pdo r2 <-
+    (if (length q <? length p1)%nat && hd_is q 44 then
+       let q1 := tl q in
+       if is_nil q1 || hd_is q1 125 then POk (pp_inf, q1) else decimal q1
+     else POk (mn, q)) ;
+  let '(mx, q2) := r2 in
+  if (length q =? length p1)%nat || negb (hd_is q2 125) then POk None
+  else POk (Some (mn, mx, tl q2)).
+
 (* the quantifier after a unit (700-768); p = the pattern at the quantifier character, which
-   isTrueQuantifier accepted.  Result: the new state, the cursor and isQuant for the next round *)
+   isTrueQuantifier accepted *)
 Definition scan_quantifier (st : mst) (p : list Z) : pr (mst * list Z) :=
   match p with
   | [] => PC 41
@@ -1496,26 +1473,7 @@ Definition scan_quantifier (st : mst) (p : list Z) : pr (mst * list Z) :=
             (if ch =? 42 then POk (Some (0, pp_inf, p1))
              else if ch =? 63 then POk (Some (0, 1, p1))
              else if ch =? 43 then POk (Some (1, pp_inf, p1))
-             else if ch =? 123 then
-               pdo r <- decimal p1 ;
-               let '(mn, q) := r in
-               pdo r2 <-
-                 (if (length q <? length p1)%nat then
-                    match q with
-                    | 44 :: q1 =>
-                        match q1 with
-                        | [] => POk (pp_inf, q1)
-                        | c :: _ => if c =? 125 then POk (pp_inf, q1) else decimal q1
-                        end
-                    | _ => POk (mn, q)
-                    end
-                  else POk (mn, q)) ;
-               let '(mx, q2) := r2 in
-               if (length q =? length p1)%nat then POk None
-               else match q2 with
-                    | c :: q3 => if c =? 125 then POk (Some (mn, mx, q3)) else POk None
-                    | [] => POk None
-                    end
+             else if ch =? 123 then brace_counts p1
              else PE PE_InternalError p1) ;
           match r with
           | None =>
@@ -1523,10 +1481,7 @@ Definition scan_quantifier (st : mst) (p : list Z) : pr (mst * list Z) :=
               pdo st' <- add_concatenate st ; POk (st', p)
           | Some (mn, mx, q) =>
               pdo q1 <- scan_blank_full (ms_o st) q ;
-              let '(lazy, q2) := match q1 with
-                                 | 63 :: q' => (true, q')
-                                 | _ => (false, q1)
-                                 end in
+              let '(lazy, q2) := if hd_is q1 63 then (true, tl q1) else (false, q1) in
               if mx <? mn then PE PE_InvalidRepeatSize q2
               else pdo st' <- add_concatenate3 st lazy mn mx ; POk (st', q2)
           end
@@ -1536,12 +1491,63 @@ Definition scan_quantifier (st : mst) (p : list Z) : pr (mst * list Z) :=
 (* after a unit has been set (687-768) *)
 Definition after_unit (st : mst) (p : list Z) : pr (mst * list Z * bool) :=
   pdo p1 <- scan_blank_full (ms_o st) p ;
-  match p1 with
-  | [] => pdo st' <- add_concatenate st ; POk (st', p1, false)
+  if is_nil p1 || negb (is_true_quantifier p1) then pdo st' <- add_concatenate st ; POk (st', p1, false)
+  else pdo r <- scan_quantifier st p1 ; let '(st', q) := r in POk (st', q, true).
+
+(* the literal run in front of the special character (564-578) *)
+Definition add_run (st : mst) (run : list Z) (isq : bool) : pr mst :=
+  match run with
+  | [] => POk st
   | _ =>
-      if negb (is_true_quantifier p1) then pdo st' <- add_concatenate st ; POk (st', p1, false)
-      else pdo r <- scan_quantifier st p1 ; let '(st', q) := r in POk (st', q, true)
+      let o := ms_o st in
+      pdo c <- add_to_concatenate o (ms_concat st) (if isq then removelast run else run) ;
+      let st' := set_concat st c in
+      if isq then pdo u <- mk_node_ch T_One o (last run 0) ; POk (set_unit st' (Some u)) else POk st'
   end.
+
+(* "(" (594-615); p3 = the pattern after it *)
+Definition round_open (tb : captab) (mco : bool) (st1 : mst) (p3 : list Z) : pr (mst * option (list Z * bool)) :=
+  let o := ms_o st1 in
+  if useRE2 o && hd_is p3 63 && nth_is 1 p3 80 && nth_is 2 p3 61 then
+    pdo r <- python_backref tb o (skipn 3 p3) ;
+    let '(x, q) := r in
+    pdo r2 <- after_unit (set_unit st1 (Some x)) q ;
+    let '(st', q', wq) := r2 in POk (st', Some (q', wq))
+  else
+    pdo r <- group_open tb mco (n_t (ms_group st1)) (mkGV o (ms_ign st1) (ms_autocap st1)) p3 ;
+    let '(g, v, q) := r in
+    match g with
+    | None =>
+        (* pushOptions; popKeepOptions: the stack is as before, the options are the new ones *)
+        POk (mkMS (ms_stack st1) (ms_group st1) (ms_alt st1) (ms_concat st1) (ms_unit st1)
+                  (gv_o v) (ms_os st1) (gv_ign v) (gv_autocap v), Some (q, false))
+    | Some gn =>
+        let st2 := mkMS (ms_stack st1) (ms_group st1) (ms_alt st1) (ms_concat st1) (ms_unit st1)
+                        (gv_o v) (o :: ms_os st1) (gv_ign v) (gv_autocap v) in
+        POk (start_group (push_group st2) gn, Some (q, false))
+    end.
+
+(* ")" (621-636) *)
+Definition round_close (st1 : mst) (p3 : list Z) : pr (mst * option (list Z * bool)) :=
+  match ms_stack st1 with
+  | [] => PE PE_UnexpectedParen p3
+  | _ =>
+      pdo st2 <- add_group st1 ;
+      pdo st3 <- pop_group st2 ;
+      pdo st4 <- pop_options st3 ;
+      match ms_unit st4 with
+      | None => POk (st4, Some (p3, false))
+      | Some _ => pdo r <- after_unit st4 p3 ; let '(st', q', wq) := r in POk (st', Some (q', wq))
+      end
+  end.
+
+(* the unit of a one-character construct: ^ $ . (645-671) *)
+Definition simple_unit (o : Z) (ch : Z) : pr rnode :=
+  if ch =? 94 then POk (mk_node (if useM o then T_Bol else T_Beginning) o)
+  else if ch =? 36 then POk (mk_node (if useM o then T_Eol else if useRE2 o || useE o then T_End else T_EndZ) o)
+  else if useS o then mk_node_set T_Set o pp_any_class
+  else if useE o then mk_node_set T_Set o pp_ecma_any_class
+  else mk_node_ch T_Notone o 10.
 
 (* one round of the outer loop (519-771).  [wasq] = isQuant left by the previous round.
    Result: None = the loop ended (BreakOuterScan), Some = go on *)
@@ -1550,81 +1556,39 @@ Definition scan_round (tb : captab) (mco : bool) (st : mst) (p : list Z) (wasq :
   pdo p0 <- scan_blank_full o p ;
   let '(run, p1) := take_run o p0 in
   pdo p2 <- scan_blank_full o p1 ;
-  let '(ch, isq, p3) := match p2 with
-                         | [] => (33, false, p2)                                         (* '!' *)
-                         | c :: r => if is_special c then (c, is_quantifier c, r) else (32, false, p2)
-                         end in
-  let wasq := match run with [] => wasq | _ => false end in
-  pdo st1 <-
-    (match run with
-     | [] => POk st
-     | _ =>
-         let lits := if isq then removelast run else run in
-         pdo c <- add_to_concatenate o (ms_concat st) lits ;
-         let st' := set_concat st c in
-         if isq then pdo u <- mk_node_ch T_One o (last run 0) ; POk (set_unit st' (Some u)) else POk st'
-     end) ;
-  let unit_then (u : pr rnode) (q : list Z) : pr (mst * option (list Z * bool)) :=
-    pdo x <- u ;
-    pdo r <- after_unit (set_unit st1 (Some x)) q ;
-    let '(st', q', wq) := r in POk (st', Some (q', wq)) in
-  if ch =? 33 then POk (st1, None)
-  else if ch =? 32 then POk (st1, Some (p3, false))
-  else if ch =? 91 then
-    pdo r <- cs_scan (S (length p3)) false o p3 ;
-    let '(syn, q) := r in
-    unit_then (class_node o syn) q
-  else if ch =? 40 then
-    if useRE2 o && (match p3 with 63 :: 80 :: 61 :: _ => true | _ => false end) then
-      pdo r <- python_backref tb o (skipn 3 p3) ;
-      let '(x, q) := r in unit_then (POk x) q
-    else
-      pdo r <- group_open tb mco (n_t (ms_group st1)) (mkGV o (ms_ign st1) (ms_autocap st1)) p3 ;
-      let '(g, v, q) := r in
-      match g with
-      | None =>
-          (* pushOptions; popKeepOptions: the stack is as before, the options are the new ones *)
-          POk (mkMS (ms_stack st1) (ms_group st1) (ms_alt st1) (ms_concat st1) (ms_unit st1)
-                    (gv_o v) (ms_os st1) (gv_ign v) (gv_autocap v), Some (q, false))
-      | Some gn =>
-          let st2 := mkMS (ms_stack st1) (ms_group st1) (ms_alt st1) (ms_concat st1) (ms_unit st1)
-                          (gv_o v) (o :: ms_os st1) (gv_ign v) (gv_autocap v) in
-          POk (start_group (push_group st2) gn, Some (q, false))
-      end
-  else if ch =? 124 then
-    pdo st2 <- add_alternate st1 ; POk (st2, Some (p3, false))
-  else if ch =? 41 then
-    match ms_stack st1 with
-    | [] => PE PE_UnexpectedParen p3
-    | _ =>
-        pdo st2 <- add_group st1 ;
-        pdo st3 <- pop_group st2 ;
-        pdo st4 <- pop_options st3 ;
-        match ms_unit st4 with
-        | None => POk (st4, Some (p3, false))
-        | Some _ => pdo r <- after_unit st4 p3 ; let '(st', q', wq) := r in POk (st', Some (q', wq))
-        end
-    end
-  else if ch =? 92 then
-    pdo r <- scan_backslash_full false tb o p3 ;
-    let '(b, q) := r in
-    match b with
-    | BNode x => unit_then (POk x) q
-    | BNil => PC 42
-    end
-  else if ch =? 94 then unit_then (POk (mk_node (if useM o then T_Bol else T_Beginning) o)) p3
-  else if ch =? 36 then
-    unit_then (POk (mk_node (if useM o then T_Eol else if useRE2 o || useE o then T_End else T_EndZ) o)) p3
-  else if ch =? 46 then
-    unit_then (if useS o then mk_node_set T_Set o pp_any_class
-               else if useE o then mk_node_set T_Set o pp_ecma_any_class
-               else mk_node_ch T_Notone o 10) p3
-  else if (ch =? 123) || (ch =? 42) || (ch =? 43) || (ch =? 63) then
-    match ms_unit st1 with
-    | None => PE (if wasq then PE_InvalidRepeatOp else PE_MissingRepeatArgument) p3
-    | Some _ => pdo r <- after_unit st1 p2 ; let '(st', q', wq) := r in POk (st', Some (q', wq))   (* moveLeft *)
-    end
-  else PE PE_InternalError p3.
+  match p2 with
+  | [] => pdo st1 <- add_run st run false ; POk (st1, None)                              (* '!' *)
+  | ch :: p3 =>
+      if negb (is_special ch) then pdo st1 <- add_run st run false ; POk (st1, Some (p2, false))   (* ' ' *)
+      else
+        let wasq := if is_nil run then wasq else false in
+        pdo st1 <- add_run st run (is_quantifier ch) ;
+        let unit_then (u : pr rnode) (q : list Z) : pr (mst * option (list Z * bool)) :=
+          pdo x <- u ;
+          pdo r <- after_unit (set_unit st1 (Some x)) q ;
+          let '(st', q', wq) := r in POk (st', Some (q', wq)) in
+        if ch =? 91 then
+          pdo r <- cs_scan (S (length p3)) false o p3 ;
+          let '(syn, q) := r in
+          unit_then (class_node o syn) q
+        else if ch =? 40 then round_open tb mco st1 p3
+        else if ch =? 124 then pdo st2 <- add_alternate st1 ; POk (st2, Some (p3, false))
+        else if ch =? 41 then round_close st1 p3
+        else if ch =? 92 then
+          pdo r <- scan_backslash_full false tb o p3 ;
+          let '(b, q) := r in
+          match b with
+          | BNode x => unit_then (POk x) q
+          | BNil => PC 42
+          end
+        else if (ch =? 94) || (ch =? 36) || (ch =? 46) then unit_then (simple_unit o ch) p3
+        else if (ch =? 123) || (ch =? 42) || (ch =? 43) || (ch =? 63) then
+          match ms_unit st1 with
+          | None => PE (if wasq then PE_InvalidRepeatOp else PE_MissingRepeatArgument) p3
+          | Some _ => pdo r <- after_unit st1 p2 ; let '(st', q', wq) := r in POk (st', Some (q', wq))   (* moveLeft *)
+          end
+        else PE PE_InternalError p3
+  end.
 
 Fixpoint scan_loop_full (fuel : nat) (tb : captab) (mco : bool) (st : mst) (p : list Z) (wasq : bool) : pr mst :=
   match fuel with
